@@ -233,8 +233,13 @@ _json_value = st.recursive(
 @st.composite
 def _json_case(draw):
     n = draw(st.integers(0, 5))
-    keys = draw(st.lists(st.integers(0, 12) | st.integers(0, 2 ** 65) | _skey | _numlike, min_size=n,
-                         max_size=n, unique_by=lambda k: str(k)))
+    # integer keys may be NumPy integers of any width (np.unique of an id vector yields them)
+    npkey = st.builds(lambda dt, v: {'$k': dt, 'v': v},
+                      st.sampled_from(['uint32', 'int64', 'int32', 'uint8', 'uint16', 'int16',
+                                       'uint64', 'int8']), st.integers(0, 120))
+    keys = draw(st.lists(st.integers(0, 12) | st.integers(0, 2 ** 65) | _skey | _numlike | npkey,
+                         min_size=n, max_size=n,
+                         unique_by=lambda k: str(k['v']) if isinstance(k, dict) else str(k)))
     return {'k': 'json', 'items': [[k, draw(_json_value)] for k in keys]}
 
 
@@ -317,6 +322,8 @@ def drivers(tier):
     th = tier == 'thorough'
     m = 36 if th else 3
     return [
+        dict(kind='enum', name='locale', exhaustive=False, bound='7 hand-made cases in a '
+             'sub-process with LC_ALL=C and UTF-8 mode off', cases=lambda: _locale_cases(th)),
         dict(kind='hyp', name='json', strategy=_json_case(), examples=5000 * m),
         dict(kind='hyp', name='tsv', strategy=_tsv_case(), examples=4000 * m),
         dict(kind='hyp', name='simple', strategy=_simple_case(), examples=3000 * m),
@@ -332,7 +339,11 @@ def _check_json(case, d):
     data = {}
     exp = {}
     for k, v in case['items']:
-        data[k] = build(v)
+        if isinstance(k, dict):
+            data[np.dtype(k['$k']).type(k['v'])] = build(v)
+            k = int(k['v'])         # integer keys come back as Python ints
+        else:
+            data[k] = build(v)
         exp[k] = expected_json(v)
     p = d / 'x.json'
     must_return('save_json', save_json, p, data)
@@ -408,7 +419,54 @@ def _check_py(case, d):
             expected=exp)
 
 
+def _locale_cases(th):
+    # text outside ASCII under an ASCII (C / POSIX) locale with Python's UTF-8 mode off
+    vals = ['caf\u00e9', '\u00b5V', '\u65e5\u672c\u8a9e', 'na\u00efve \U0001f9e0', 'plain']
+    for i, v in enumerate(vals):
+        yield {'k': 'locale', 'case': {'k': 'json', 'items': [[v, [v, 1, None]], ['k%d' % i, v],
+                                                               [3, {'$': 'dict', 'items': [[v, 2.5]]}]]}}
+    yield {'k': 'locale', 'case': {'k': 'tsv', 'rows': [{'id': 1, 'f1': 'good'}, {'id': 2, 'f1': 'x y'}],
+                                   'ext': '.tsv', 'first': 'id'}}
+    yield {'k': 'locale', 'case': {'k': 'py', 'items': [['a', 1], ['b', 'text'], ['c', [1, 2.5]]]}}
+
+
+_LOCALE_SCRIPT = (
+    "import sys, json\n"
+    "from pbt import core\n"
+    "from pbt.props import c18\n"
+    "case = json.loads(sys.argv[1])\n"
+    "try:\n"
+    "    c18.check(case)\n"
+    "except core.Violation as v:\n"
+    "    print('VIOLATION::' + str(v)[:500]); sys.exit(3)\n")
+
+
+def _check_locale(case):
+    import json
+    import os
+    import subprocess
+    import sys
+    from pathlib import Path
+    root = str(Path(__file__).resolve().parents[2])
+    envv = dict(os.environ, LC_ALL='C', LANG='C', PYTHONUTF8='0', PYTHONCOERCECLOCALE='0',
+                PYTHONPATH=root + os.pathsep + os.environ.get('PYTHONPATH', ''),
+                PYTHONIOENCODING='utf-8')
+    envv.pop('PYTHONPYCACHEPREFIX', None)
+    envv['PYTHONDONTWRITEBYTECODE'] = '1'
+    p = subprocess.run([sys.executable, '-X', 'utf8=0', '-c', _LOCALE_SCRIPT,
+                        json.dumps(case['case'])], env=envv, capture_output=True, text=True,
+                       timeout=300)
+    if p.returncode == 3:
+        msg = [ln for ln in p.stdout.splitlines() if ln.startswith('VIOLATION::')]
+        raise Violation('under an ASCII locale: ' + (msg[0][11:] if msg else '?'),
+                        key='ascii-locale')
+    if p.returncode != 0:
+        raise RuntimeError('locale sub-process failed: %s' % (p.stderr[-800:],))
+
+
 def check(case):
+    if case['k'] == 'locale':
+        return _check_locale(case)
     with env.scratch() as d:
         k = case['k']
         if k == 'json':
@@ -439,8 +497,13 @@ def classify(case, info):
     k = case['k']
     labels = [k]
     nt = False
+    if k == 'locale':
+        return ['locale:ascii:' + case['case']['k']], True
     if k == 'json':
         kinds = set(type(key).__name__ for key, _ in case['items'])
+        if 'dict' in kinds:
+            labels.append('json:numpy-integer-keys')
+            kinds = (kinds - {'dict'}) | {'int'}
         if kinds == {'int', 'str'}:
             labels.append('json:mixed-keys')
             nt = True
